@@ -202,9 +202,12 @@ def place(placement, params, vararg, kwarg, args):
     raise ValueError(placement)
 
 
-def _sig_cases(params, vararg, kwarg, placements, dup_shapes):
+def _sig_cases(params, vararg, kwarg, placements, dup_shapes, mixed=True):
+    """mixed=False leaves out the M (part direct, part spread) forms of positionals and keywords"""
     sk = sig_key(params, vararg, kwarg)
     for ck, args, dup in call_shapes(params, dup_shapes):
+        if not mixed and ("M/" in ck or ck.endswith(":M")):
+            continue
         npos = int(ck[0])
         kwpart = ck.split("/")[1]
         kw_given = set(kwpart.split(":")[0]) if kwpart != "-" else set()
@@ -245,26 +248,29 @@ def _count_upto(n):
 def tasks(thorough, seed):
     out = []
 
-    def add(nmax, placements, dup=False):
-        for i in range(_count_upto(nmax)):
+    def add(nmax, placements, dup=False, nmin=0, mixed=True):
+        for i in range(_count_upto(nmin - 1) if nmin else 0, _count_upto(nmax)):
             for pl in placements:
-                out.append(("sig", i, pl, dup))
+                out.append(("sig", i, pl, dup, mixed))
 
     if thorough:
         add(3, PLACEMENTS_BASE + PLACEMENTS_EXTRA)
         add(2, PLACEMENTS_BASE, dup=True)
     else:
-        add(3, ("def",))
-        add(2, PLACEMENTS_BASE[1:])
+        # module-level def: every shape for <=2 parameters; 3 parameters without the mixed spread forms
+        add(2, ("def",))
+        add(3, ("def",), nmin=3, mixed=False)
+        # the other placements differ in how the function object reaches the tracer, not in how a call is written
+        add(2, PLACEMENTS_BASE[1:], mixed=False)
         add(1, ("def", "method"), dup=True)
         # seed-chosen extra stratum beyond the always-complete part: one of the thorough-only placements
-        add(2, (PLACEMENTS_EXTRA[seed % len(PLACEMENTS_EXTRA)],))
+        add(2, (PLACEMENTS_EXTRA[seed % len(PLACEMENTS_EXTRA)],), mixed=False)
     # signatures with more parameters have more call shapes: biggest units first keeps the pool's tail short
     out.sort(key=lambda d: -len(_sigs()[d[1]][0]))
     return out
 
 
 def expand(desc):
-    _, i, pl, dup = desc
+    _, i, pl, dup, mixed = desc
     params, vararg, kwarg = _sigs()[i]
-    return _sig_cases(params, vararg, kwarg, (pl,), dup)
+    return _sig_cases(params, vararg, kwarg, (pl,), dup, mixed)
